@@ -132,6 +132,8 @@ type Sess struct {
 	R    *Rig
 	Base time.Time
 	base map[int]*rhp4.RevisionState
+	// Client, when set, replaces the rig's transport for the RPCs issued through the real client
+	Client rhp4.TransportClient
 	cids map[int]types.FileContractID
 	cidx map[types.FileContractID]int
 }
